@@ -352,6 +352,10 @@ func copyDBIntoSQLite(source, destination *sql.DB,
 			return err
 		}
 	}
+	if err := genericRows.Err(); err != nil {
+		logger.Printf("err='%s'", err)
+		return err
+	}
 	err = tx.Commit()
 	if err != nil {
 		logger.Printf("err='%s'", err)
